@@ -160,7 +160,7 @@ def _ev_impl(S, F, x, asg, tabs=None):
         if x[1] == "Not":
             w = _width(S, x[2])
             if w is None:
-                raise Unknown("Not on unknown width")
+                raise Unknown("Not on unknown width: %r" % (x[2],))
             return (~v) & ((1 << w) - 1)
         raise Unknown("unary %s" % x[1])
     if k == "call":
